@@ -218,13 +218,14 @@ PROPS = {
         ],
     },
     "C09": {
-        "lean_targets": ["Cql.Props.C09"],
+        "lean_targets": ["Cql.Props.C09", "Cql.Props.C09Concurrent"],
         "trusted_base": COMMON_TRUST + [HARNESS,
             "Cql/Inflight.lean: hand-written API-level model of client/inflight.go (one step = one handler call), tied to the code "
             "only by the correspondence run through the `verif` export shim client/verif_hooks.go"],
         "assumptions": [
-            "each handler call is atomic (API-level histories); interleavings of the internal steps of concurrent callers are covered by "
-            "the separate micro-step theorems where present, and otherwise only sampled by the harness",
+            "API-level histories treat each handler call as atomic; concurrent senders are covered separately at the granularity of the two "
+            "critical sections of onOutgoingFrameEnqueued (Cql/InflightMicro.lean: every interleaving); finer interleavings (inside a "
+            "critical section, the id channel) rest on Go's mutex and channel semantics and are only sampled by the harness",
             "timers do not fire during the modelled history (timeouts are C16)",
             "the request channel capacity MaxPending is at least 1",
         ],
